@@ -837,6 +837,28 @@ class MeshRegion:
         self.dx.centre = (self.psi_vals[2::2] - self.psi_vals[:-2:2])[:, numpy.newaxis]
         self.dx.ylow = (self.psi_vals[2::2] - self.psi_vals[:-2:2])[:, numpy.newaxis]
 
+        # At the x-faces dx is the psi difference between the adjacent cell centres
+        # (used by DDX). At a boundary of the grid it is the cell width, so that dx/2 is
+        # the difference between the face and the neighbouring cell centre.
+        dx_xlow = numpy.zeros(self.nx + 1)
+        dx_xlow[1:-1] = self.psi_vals[3::2] - self.psi_vals[1:-2:2]
+        inner = self.getNeighbour("inner")
+        if inner is not None:
+            dx_xlow[0] = (self.psi_vals[1] - self.psi_vals[0]) + (
+                inner.psi_vals[-1] - inner.psi_vals[-2]
+            )
+        else:
+            dx_xlow[0] = 2.0 * (self.psi_vals[1] - self.psi_vals[0])
+        outer = self.getNeighbour("outer")
+        if outer is not None:
+            dx_xlow[-1] = (self.psi_vals[-1] - self.psi_vals[-2]) + (
+                outer.psi_vals[1] - outer.psi_vals[0]
+            )
+        else:
+            dx_xlow[-1] = 2.0 * (self.psi_vals[-1] - self.psi_vals[-2])
+        self.dx.xlow = dx_xlow[:, numpy.newaxis]
+        self.dx.corners = dx_xlow[:, numpy.newaxis]
+
         if self.psi_vals[0] > self.psi_vals[-1]:
             # x-coordinate is -psixy so x always increases radially across grid
             self.bpsign = -1.0
